@@ -196,9 +196,18 @@ example : (run P0 (schedOf [true, true, false]) 0 (mu P0 (init P0)) (init P0)).2
     = [[⟨10, 1, 9, 16⟩, ⟨20, 0, 10, 16⟩], [⟨30, 1, 11, 16⟩]] := by decide
 
 /-- a reachable non-final state where the producer is blocked on the full queue -/
-example : Reach P0 ⟨.putting 2 (P0.pay 2), [.frame (P0.pay 1)], .getting, [], [], []⟩ :=
-  .step (.step (.step .init (.prod (by decide +kernel))) (.prod (by decide +kernel)))
-    (.prod (by decide +kernel))
+example : Reach P0 ⟨.putting 2 (P0.pay 2), [.frame (P0.pay 1)], .getting, [], [], []⟩ := by
+  have s1 : Step P0 (init P0) ⟨.putting 1 (P0.pay 1), [], .getting, [], [], []⟩ := .prod rfl
+  have s2 : Step P0 ⟨.putting 1 (P0.pay 1), [], .getting, [], [], []⟩
+      ⟨.reading 2, [.frame (P0.pay 1)], .getting, [], [], []⟩ := .prod rfl
+  have s3 : Step P0 ⟨.reading 2, [.frame (P0.pay 1)], .getting, [], [], []⟩
+      ⟨.putting 2 (P0.pay 2), [.frame (P0.pay 1)], .getting, [], [], []⟩ := .prod rfl
+  exact .step (.step (.step .init s1) s2) s3
+
+/-- … in which the producer cannot move (queue full) but the consumer can -/
+example : stepP P0 ⟨.putting 2 (P0.pay 2), [.frame (P0.pay 1)], .getting, [], [], []⟩ = none ∧
+    (stepC P0 ⟨.putting 2 (P0.pay 2), [.frame (P0.pay 1)], .getting, [], [], []⟩).isSome :=
+  ⟨rfl, rfl⟩
 
 /-- the empty range delivers nothing but still closes the stream -/
 example : expected ⟨1, 2, 5, 5, none, fun i => ⟨i, 0, 8, 8⟩⟩ = [] := by decide
